@@ -509,8 +509,9 @@ def duplicates(R, rng, seed, aid):
     """two methods answering to the same name must be rejected when the application is constructed"""
     from spyne import Application, Service, rpc, Integer
     from spyne import ComplexModel, Unicode
-    for variant in ('same_name_two_services', 'operation_name_collides', 'bare_same_name', 'qualified_in_message_name', 'in_message_name_collides',
-                    'bare_vs_wrapped'):
+    for variant, same_service_name in [(v, sn) for v in ('same_name_two_services', 'operation_name_collides', 'bare_same_name', 'qualified_in_message_name',
+                                                         'in_message_name_collides', 'bare_vs_wrapped', 'bare_primitive_in_message_name',
+                                                         'bare_primitive_same_name') for sn in (False, True)]:
         R.evaluations += 1
 
         def mk(name, op=None):
@@ -548,6 +549,20 @@ def duplicates(R, rng, seed, aid):
         elif variant == 'in_message_name_collides':
             A = type('DupA', (Service,), {'get': mk('get')})
             Bs = type('DupB', (Service,), {'fetch': mkin('fetch', 'get')})
+        elif variant in ('bare_primitive_in_message_name', 'bare_primitive_same_name'):
+            # bare methods whose one argument is a primitive: the message element is the argument itself, named after the method / the in-message name
+            def mkprim(name, inmsg=None):
+                def f(ctx, v):
+                    return 1
+                f.__name__ = name
+                kw = {'_in_message_name': inmsg} if inmsg else {}
+                return rpc(Unicode, _returns=Integer, _body_style='bare', **kw)(f)
+            if variant == 'bare_primitive_in_message_name':
+                A = type('DupA', (Service,), {'f1': mkprim('f1', 'msg')})
+                Bs = type('DupB', (Service,), {'f2': mkprim('f2', 'msg')})
+            else:
+                A = type('DupA', (Service,), {'get': mkprim('get')})
+                Bs = type('DupB', (Service,), {'get': mkprim('get')})
         elif variant == 'bare_vs_wrapped':
             P1 = type('DupArg3', (ComplexModel,), {'__namespace__': M.TNS, 's': Unicode})
             A = type('DupA', (Service,), {'get': mkbare('get', P1)})
@@ -555,15 +570,20 @@ def duplicates(R, rng, seed, aid):
         else:
             A = type('DupA', (Service,), {'get': mk('get')})
             Bs = type('DupB', (Service,), {'fetch': mk('fetch', op='get')})
-        inp, outp = M.make_protocols('json', None)
-        R.count('duplicate_constructions')
-        try:
-            Application([A, Bs], M.TNS, name='Dup', in_protocol=inp, out_protocol=outp)
-        except Exception as e:
-            R.nontrivial('duplicate', variant, type(e).__name__)
-            continue
-        R.violation('application with two methods answering to one name (%s) was constructed' % variant, {'seed': seed, 'app': aid, 'variant': variant},
-                    mech='duplicate_accepted:%s' % variant)
+        if same_service_name:
+            # two service classes that go by one name
+            A.__service_name__ = Bs.__service_name__ = 'DupSame'
+        for order in ((A, Bs), (Bs, A)):
+            inp, outp = M.make_protocols('json', None)
+            R.count('duplicate_constructions')
+            try:
+                Application(list(order), M.TNS, name='Dup', in_protocol=inp, out_protocol=outp)
+            except Exception as e:
+                R.nontrivial('duplicate', variant, same_service_name, type(e).__name__)
+                continue
+            R.violation('application with two methods answering to one name (%s%s) was constructed' % (variant, ', services of the same name' if same_service_name else ''),
+                        {'seed': seed, 'app': aid, 'variant': variant, 'same_service_name': same_service_name},
+                        mech='duplicate_accepted:%s%s' % (variant, ':same_service_name' if same_service_name else ''))
 
 
 def run(spec, R):
